@@ -40,6 +40,12 @@ def rule_unwrap(ctx, rep):
                         pl = s["rv"]["op"]["mv"]
                         if pl["p"] and isinstance(pl["p"][-1], dict) and pl["p"][-1].get("adt") == F.inner_path and F.data_field and pl["p"][-1].get("f") == F.data_field[0]:
                             moved = True
+            if not moved:
+                # through a binding: `let ArcInner { data, .. } = *boxed; data`
+                o = cfg.Body(b).origin_local(0)
+                pl = o.get("place") if o.get("kind") == "place" else None
+                if pl and pl["p"] and isinstance(pl["p"][-1], dict) and pl["p"][-1].get("adt") == F.inner_path and F.data_field and pl["p"][-1].get("f") == F.data_field[0]:
+                    moved = True
             if moved:
                 rep.ok("R-UNWRAP", b["key"] + "/moves-data", cfg=tag)
             else:
@@ -97,6 +103,14 @@ def run(ctx, rep):
     from . import c03
 
     c03.rule_gate_def(ctx, rep)  # exactly-one-winner under races rests on the Acquire gate (and on C02)
+
+    def family(F):
+        for h, name, tr in (("Arc", "try_unique", None), ("Arc", "try_unwrap", None), ("Arc", "unwrap_or_clone", None), ("UniqueArc", "try_from", "TryFrom"), ("UniqueArc", "into_inner", None), ("UniqueArc", "from_arc", None), ("UniqueArc", "from_arc_ref", None)):
+            for b in F.method(h, name, tr):
+                yield b["key"]
+
+    c03.rule_gate_for(ctx, rep, family)  # every way these functions come to hold a UniqueArc is behind the Acquire gate
+    rep.floor("R-GATE", 2, "UniqueArc constructions / unchecked-constructor call sites in the unwrap family")
 
 
 def main(argv):
